@@ -61,7 +61,7 @@ func topMarshaler(o ugo.Object) encoding.BinaryMarshaler {
 	return nil
 }
 
-func safeMarshal(o ugo.Object) (b []byte, err error) {
+func encSafeMarshal(o ugo.Object) (b []byte, err error) {
 	defer func() {
 		if r := recover(); r != nil {
 			err = fmt.Errorf("panic: %v", r)
@@ -216,7 +216,7 @@ func opaqueEqual(a, b ugo.Object) bool {
 func sameObject(a, b ugo.Object) (bool, string) {
 	ta, tb := normText(objText(a)), normText(objText(b))
 	if ta != tb {
-		return false, "canonical text differs: " + clip(tb, 300) + " vs original " + clip(ta, 300)
+		return false, "canonical text differs: " + encClip(tb, 300) + " vs original " + encClip(ta, 300)
 	}
 	la, lb := opaqueLeaves(a, nil), opaqueLeaves(b, nil)
 	if len(la) != len(lb) {
@@ -230,7 +230,7 @@ func sameObject(a, b ugo.Object) (bool, string) {
 	return true, ""
 }
 
-func clip(s string, n int) string {
+func encClip(s string, n int) string {
 	if len(s) > n {
 		return s[:n] + "…"
 	}
@@ -240,13 +240,13 @@ func clip(s string, n int) string {
 func encConstant(c *Ctx, v ugo.Object) {
 	tn := safeTypeName(v)
 	text := objText(v)
-	E, err := safeMarshal(v)
+	E, err := encSafeMarshal(v)
 	if err != nil {
-		c.Violation(PropViolation{"C04", "encoding fails: " + err.Error(), clip(text, 2000), "C04:const-encode-error:" + tn})
+		c.Violation(PropViolation{"C04", "encoding fails: " + err.Error(), encClip(text, 2000), "C04:const-encode-error:" + tn})
 		return
 	}
 	hexE := hx(E)
-	in := func() string { return clip(hexE, 4000) + " <- " + clip(text, 2000) }
+	in := func() string { return encClip(hexE, 4000) + " <- " + encClip(text, 2000) }
 	d := rawDecodeObject(E)
 	switch d.class() {
 	case "panic":
@@ -259,7 +259,7 @@ func encConstant(c *Ctx, v ugo.Object) {
 		}
 		if ok, why := sameObject(v, d.obj); !ok {
 			c.Violation(PropViolation{"C04", "decoded constant differs from the original: " + why, in(), "C04:const-roundtrip:" + tn})
-		} else if E2, err := safeMarshal(d.obj); err != nil {
+		} else if E2, err := encSafeMarshal(d.obj); err != nil {
 			c.Violation(PropViolation{"C04", "re-encoding the decoded constant fails: " + err.Error(), in(), "C04:const-reencode:" + tn})
 		} else {
 			d2 := rawDecodeObject(E2)
@@ -375,8 +375,8 @@ func hasString(xs []string, s string) bool {
 }
 
 // encProgram runs the C04 oracles on one compiled program; it returns the model case.
-func encProgram(c *Ctx, p *gen.Program, bc *ugo.Bytecode, mm *ugo.ModuleMap, mods string, tag string) *Case {
-	srcIn := func() string { return tag + " mods=" + strings.Join(p.Builtins, ",") + " src=" + clip(p.Src, 3000) }
+func encProgram(c *Ctx, p *gen.EncProgram, bc *ugo.Bytecode, mm *ugo.ModuleMap, mods string, tag string) *Case {
+	srcIn := func() string { return tag + " mods=" + strings.Join(p.Builtins, ",") + " src=" + encClip(p.Src, 3000) }
 	E, err := safeEncodeBytecode(bc)
 	if err != nil {
 		c.Violation(PropViolation{"C04", "encoding fails: " + err.Error(), srcIn(), "C04:encode-error"})
@@ -393,13 +393,13 @@ func encProgram(c *Ctx, p *gen.Program, bc *ugo.Bytecode, mm *ugo.ModuleMap, mod
 		} else {
 			what += d.err.Error()
 		}
-		c.Violation(PropViolation{"C04", what, srcIn() + " E=" + clip(hexE, 4000), "C04:decode-error"})
+		c.Violation(PropViolation{"C04", what, srcIn() + " E=" + encClip(hexE, 4000), "C04:decode-error"})
 		return cs
 	}
 	bc2 := d.bc
 	t1, t2 := bcText(bc), bcText(bc2)
 	if normText(t1) != normText(t2) {
-		c.Violation(PropViolation{"C04", "decoded bytecode differs from the original: " + firstDiff(normText(t1), normText(t2)), srcIn(), "C04:structure"})
+		c.Violation(PropViolation{"C04", "decoded bytecode differs from the original: " + encFirstDiff(normText(t1), normText(t2)), srcIn(), "C04:structure"})
 	}
 	// decode twice: decoding E again, and decoding the re-encoding of bc2
 	var bc3 *ugo.Bytecode
@@ -416,7 +416,7 @@ func encProgram(c *Ctx, p *gen.Program, bc *ugo.Bytecode, mm *ugo.ModuleMap, mod
 		} else {
 			bc3 = d3.bc
 			if t3 := bcText(bc3); normText(t3) != normText(t2) {
-				c.Violation(PropViolation{"C04", "decode(encode(decode(E))) differs from decode(E): " + firstDiff(normText(t2), normText(t3)), srcIn(), "C04:decode-twice"})
+				c.Violation(PropViolation{"C04", "decode(encode(decode(E))) differs from decode(E): " + encFirstDiff(normText(t2), normText(t3)), srcIn(), "C04:decode-twice"})
 			}
 		}
 	}
@@ -439,7 +439,7 @@ func encProgram(c *Ctx, p *gen.Program, bc *ugo.Bytecode, mm *ugo.ModuleMap, mod
 			inp := fmt.Sprintf("%s input#%d args=%s globals=%s", srcIn(), i, objText(ugo.Array(in.Args)), objText(in.Globals))
 			switch {
 			case o.kind != o1.kind || o.val != o1.val:
-				c.Violation(PropViolation{"C04", fmt.Sprintf("%s program returns %s %s, original %s %s", which, o.kind, clip(o.val+o.errNM, 300), o1.kind, clip(o1.val+o1.errNM, 300)), inp, "C04:run-differs:value"})
+				c.Violation(PropViolation{"C04", fmt.Sprintf("%s program returns %s %s, original %s %s", which, o.kind, encClip(o.val+o.errNM, 300), o1.kind, encClip(o1.val+o1.errNM, 300)), inp, "C04:run-differs:value"})
 			case o.errNM != o1.errNM:
 				c.Violation(PropViolation{"C04", fmt.Sprintf("%s program fails with %s, original with %s", which, o.errNM, o1.errNM), inp, "C04:run-differs:error"})
 			case o.trace != o1.trace:
@@ -450,7 +450,7 @@ func encProgram(c *Ctx, p *gen.Program, bc *ugo.Bytecode, mm *ugo.ModuleMap, mod
 	return cs
 }
 
-func firstDiff(a, b string) string {
+func encFirstDiff(a, b string) string {
 	i := 0
 	for i < len(a) && i < len(b) && a[i] == b[i] {
 		i++
@@ -459,7 +459,7 @@ func firstDiff(a, b string) string {
 	if lo < 0 {
 		lo = 0
 	}
-	return fmt.Sprintf("at offset %d: original …%s vs …%s", i, clip(a[lo:], 120), clip(b[lo:], 120))
+	return fmt.Sprintf("at offset %d: original …%s vs …%s", i, encClip(a[lo:], 120), encClip(b[lo:], 120))
 }
 
 func runEnc(c *Ctx) {
@@ -503,7 +503,7 @@ func runEnc(c *Ctx) {
 					fmt.Fprintf(os.Stderr, "COMPILE ERROR %v\n%s\n-----\n", err, p.Src)
 				}
 				if strings.HasPrefix(err.Error(), "compiler panic") || pi < len(gen.FixedPrograms()) {
-					c.Count("compile-error:" + clip(err.Error(), 80))
+					c.Count("compile-error:" + encClip(err.Error(), 80))
 				}
 				continue
 			}
